@@ -8,7 +8,14 @@ import json, os, shutil, subprocess, sys, time
 
 V = "/verif"
 prop, n = sys.argv[1], sys.argv[2]
-src = "/tmp/mut/%s/out" % prop
+root = "/tmp/mut"
+name = "%s-%s" % (prop, n)
+for a in sys.argv:
+    if a.startswith("--src="):
+        root = a.split("=")[1]
+    if a.startswith("--name="):
+        name = a.split("=")[1]
+src = "%s/%s/out" % (root, prop)
 patch = os.path.join(src, "patch_%s.diff" % n)
 demo = os.path.join(src, "demo_%s.py" % n)
 meta = os.path.join(src, "meta_%s.txt" % n)
@@ -48,7 +55,7 @@ finally:
 ok = res.get("applies") and "473 passed" in res.get("tests", "") and res["demo_without_change"] == 0 and res["demo_with_change"] != 0
 res["confirmed"] = bool(ok)
 if ok:
-    d = os.path.join(V, "seeded", "%s-%s" % (prop, n))
+    d = os.path.join(V, "seeded", name)
     os.makedirs(d, exist_ok=True)
     shutil.copy(patch, os.path.join(d, "patch.diff"))
     shutil.copy(demo, os.path.join(d, "demo.py"))
@@ -83,7 +90,7 @@ if ok:
     m = {"breaks_property": prop, "what_it_needs_to_manifest": open(meta).read() if os.path.exists(meta) else "",
          "confirmed": {"applies_to_pinned_commit": True, "existing_tests": res["tests"], "demo_exit_without_change": 0,
                        "demo_exit_with_change": res["demo_with_change"]},
-         "ran": ["git -C /repo apply seeded/%s-%s/patch.diff" % (prop, n)] + ["./check %s --tier quick" % c for c in checks] + ["git -C /repo checkout -- ."],
+         "ran": ["git -C /repo apply seeded/%s/patch.diff" % name] + ["./check %s --tier quick" % c for c in checks] + ["git -C /repo checkout -- ."],
          "check_results": results, "detected_by": res["detected_by"]}
     json.dump(m, open(os.path.join(d, "meta.json"), "w"), indent=1)
 print(json.dumps(res, indent=1))
